@@ -26,6 +26,10 @@ for d in seeded/*/; do
       note="$note; check $q exit=$rc2 $sig2"
     done
   fi
+  if [ "$rc" != "1" ] && [ -f $d/meta.json ]; then
+    extra=$(python3 -c "import json; print(json.load(open('$d/meta.json')).get('note',''))" 2>/dev/null)
+    [ -n "$extra" ] && note="$note; $extra"
+  fi
   echo "$n $p exit=$rc $sig$note"
   echo "| $n | $p | $rc | $sig$note |" >> $out.tmp
 done
